@@ -1,6 +1,6 @@
 (* C01 -- canonicalisation is idempotent and re-readable.  ONLY statements closed by `exact`. *)
 From OV Require Import Base.Strs Syn.Escape Syn.Quote Syn.Ast Syn.Emitter Syn.Wf Lex.Pins_Lexer Gen.LexerGen
-     Syn.Pins_Emitter Gen.EmitterGen.
+     Syn.Pins_Emitter Gen.EmitterGen Lex.Lexer Syn.Parser Rt.TokRound.
 
 Theorem C01_escape_mirrors : forall s, escape_safe s = true -> unescape (escape s) = s.
 Proof. exact unescape_escape. Qed.
@@ -16,3 +16,12 @@ Proof.
   exact (conj pin_lexer_token_patterns (conj pin_lexer_ascii_aliases
         (conj pin_emitter_multiline_threshold pin_emitter_annotation_pattern))).
 Qed.
+
+(* RE-READABILITY of the structural core at every depth: the strict reader model never refuses, and never runs
+   out of fuel on, the token layout of a core document (see Properties/C02.v for the full statement) *)
+Theorem C01_core_reparse_all_depths :
+  forall numcanon holo_ok sp alpha d,
+    core_doc d = true -> nums_ok_l numcanon (dsections d) ->
+    forall st0 ts tail, tail <> [] -> Forall2 tmatch ts (doc_sh d) -> ptoks st0 = ts ++ tail ->
+    exists st', parse_document numcanon holo_ok true sp alpha st0 = POk d st' /\ wext st0 st'.
+Proof. exact (fun n h => parse_core_doc n h true). Qed.
